@@ -106,7 +106,9 @@ Record session := {
   n_enc : bool;         (* neg.Encryption *)
   n_user : user;        (* neg.User *)
   n_resumed : bool;     (* neg.SessionResumed *)
-  n_sid : sid           (* neg.SessionId *)
+  n_sid : sid;          (* neg.SessionId *)
+  n_valid : list cmd    (* neg.ValidCommands: restored from the cache entry on resumption, never set by a
+                           server-side full handshake; carried along, NOT consulted by the dispatch *)
 }.
 
 (* per-connection state: the negotiation record plus the two ghost facts *)
@@ -166,6 +168,8 @@ Record sentry := {
   e_key : keykind;
   e_authn : bool;       (* policy attribute Authenticated (absent = false) *)
   e_user : user;        (* policy attribute User (absent = "") *)
+  e_valid : list cmd;   (* policy attribute ValidCommands (claim sessions: MintClaimOptions.ValidCommands,
+                           session_info); absent for sessions storeSession creates *)
   e_auth_real : bool    (* GHOST: the session was established by a real authentication *)
 }.
 
@@ -198,11 +202,11 @@ Record full := {
 (* storeSession *)
 Definition entry_of_full (r : full) : sentry :=
   {| e_key := if f_haskey r then KAes else KNone;
-     e_authn := f_authn r; e_user := f_user r; e_auth_real := f_auth_real r |}.
+     e_authn := f_authn r; e_user := f_user r; e_valid := []; e_auth_real := f_auth_real r |}.
 
 Definition cstate_of_full (r : full) : cstate :=
   {| cs_neg := {| n_cmd := f_cmd r; n_authn := f_authn r; n_enc := f_enc r; n_user := f_user r;
-                  n_resumed := false; n_sid := f_sid r |};
+                  n_resumed := false; n_sid := f_sid r; n_valid := [] |};
      cs_auth_real := f_auth_real r; cs_enc_real := f_enc_real r |}.
 
 (* sessionHasUsableKey: KeyInfo != nil && len(Data) == 32 && isAESGCM(Protocol) *)
@@ -219,7 +223,7 @@ Definition usable_key (k : keykind) : bool := match k with KAes => true | _ => f
 Definition resume (e : sentry) (s : sid) (c : cmd) : option cstate :=
   if usable_key (e_key e) then
     Some {| cs_neg := {| n_cmd := c; n_authn := e_authn e; n_enc := true; n_user := e_user e;
-                         n_resumed := true; n_sid := s |};
+                         n_resumed := true; n_sid := s; n_valid := e_valid e |};
             cs_auth_real := e_auth_real e; cs_enc_real := true |}
   else None.
 
